@@ -210,6 +210,10 @@ let rec run_case (kind : string) (body : sexp list) : string * string =
                   | GItem (k, _) | GTerm (k, _) -> if List.exists (fun a -> val_eqb a k) !announced then out := g :: !out
                   | OuterTerm _ -> if not !cut then out := g :: !out) gevs;
               List.rev !out
+          | Some (List [Atom "ignore"; k]) ->
+              (* the consumer leaves the group of this key without a subscriber: it is announced (once), nobody hears its items *)
+              let k = val_of k in
+              List.filter (function GItem (k', _) | GTerm (k', _) -> not (val_eqb k k') | _ -> true) gevs
           | _ -> gevs) in
       (show_gevs gevs, "UNSPECIFIED")
   | "group_by" ->
@@ -519,6 +523,7 @@ let rec run_case (kind : string) (body : sexp list) : string * string =
          | "defer" -> LDefer (lsrc_of (List.hd (args x)))
          | "create" -> LCreate (List.map ev_of (args x))
          | "iter" -> LIter (narg (List.hd (args x)))
+         | "coll" -> LColl (narg (List.hd (args x)))
          | h -> failwith ("bad lazy source " ^ h)) in
       let src = lsrc_of (List.nth body 1) in
       let os = OMap (fun v -> v) :: expand_all (List.map uop_of (args (List.nth body 2))) in
@@ -844,7 +849,7 @@ let oracle (kind : string) (body : sexp list) (impl : string) : string option =
                 | List [Atom "o"; List (Atom "coldi" :: evs)] ->
                     cold := List.filter_map (function List [Atom "n"; v] -> Some (val_of v) | _ -> None) evs :: !cold
                 | _ -> ()) sc;
-            Hashtbl.fold (fun _ l acc -> l :: acc) hot [] @ !cold) scripts) in
+            Hashtbl.fold (fun _ l acc -> l :: acc) hot [] @ !cold) (setup :: scripts)) in
         let items = List.filter_map (function Next v -> Some v | _ -> None) delivered in
         let rec subseq a b = (match a, b with
             | [], _ -> true | _, [] -> false
@@ -879,7 +884,7 @@ let oracle (kind : string) (body : sexp list) (impl : string) : string option =
            handing everything over is the generated shape) *)
         let outer_last = List.for_all (fun sc -> not (List.mem (List [Atom "o"; Atom "c"]) sc) ||
                                                  (match List.rev sc with List [Atom "o"; Atom "c"] :: _ -> true | _ -> false)) scripts
-                         && List.length (List.filter (fun sc -> sc != setup && List.exists (function List (Atom "o" :: _) -> true | _ -> false) sc) scripts) = 1 in
+                         && List.length (List.filter (fun sc -> sc != setup && List.exists (function List (Atom "o" :: _) -> true | _ -> false) sc) scripts) <= 1 in
         if List.exists (fun v -> not (List.mem v known)) items then Some "reject:C05 an item no inner observable emitted"
         else if not (List.for_all (fun src -> subseq (List.filter (fun v -> List.mem v src) items) src) sources)
         then Some "reject:C05 an inner observable's item delivered twice or out of its order"
